@@ -1,5 +1,6 @@
 // Engine saltping: connection-level monitors for server salts (C41) and
-// ping/pong + keep-alive (C43). The real mtproto.Conn (read loop, write path,
+// ping/pong + keep-alive (C43), plus the connection-level arm of C26 (close /
+// cancel classification through Conn.Invoke). The real mtproto.Conn (read loop, write path,
 // ping loop, salt logic, rpc engine) runs against a harness-owned fake
 // transport whose server side is played with the independent refmodel cipher.
 package main
@@ -12,5 +13,6 @@ func main() {
 	mon.Main("saltping", map[string]mon.PropFunc{
 		"C41": runC41,
 		"C43": runC43,
+		"C26": runC26,
 	})
 }
